@@ -2639,7 +2639,7 @@ class MultiplexedGate(Gate):
 
     def __init__(self, tgates: Sequence[Gate], ncontrols: int):
         if len(tgates) != 2**ncontrols:
-            assert ValueError(
+            raise ValueError(
                 f"require {2**ncontrols} target gates for {ncontrols} control qubits")
         self.tgates = list(tgates)
         self.ncontrols = ncontrols
